@@ -704,6 +704,34 @@ def incremental(ctx: Ctx):
                 return True
         return False
     in_reward = isinstance(rsl.fr.ret, vg.S) and has_return_leg(rsl.fr.ret)
+    # ... and only for closed tours: every python-level alternative of the reward that contains the return leg is guarded by
+    # problem_mode == 'close', and the alternatives without that guard do not contain it
+    mode_ok = True
+    if in_reward:
+        def mode_of(cond):
+            for cst, truth in guard_consts([(cond, True)]):
+                if cst == "close":
+                    return "close-first" if truth else "open-first"
+                if cst == "open":
+                    return "open-first" if truth else "close-first"
+            return None
+        mode_phis = [n for n in vg.walk(rsl.fr.ret) if n.op in ("phi", "ifexp") and mode_of(n.args[0]) is not None]
+        ids = {n.id for n in mode_phis}
+        outside = False
+        for n in vg.walk(rsl.fr.ret, stop=lambda z: z.id in ids):
+            if n.id in ids:
+                continue
+            is_dist = nf._fn(n) in nf.DIST_FN or (n.op == "meth" and n.args[1] == "norm")
+            if is_dist and {"locs", "current_node", "current_depot"} <= vg.cells_of(n):
+                outside = True
+        inside_ok = bool(mode_phis)
+        for n in mode_phis:
+            close_b, open_b = (n.args[1], n.args[2]) if mode_of(n.args[0]) == "close-first" else (n.args[2], n.args[1])
+            if has_return_leg(open_b) and not has_return_leg(close_b):
+                inside_ok = False
+            if has_return_leg(open_b) and has_return_leg(close_b):
+                inside_ok = False
+        mode_ok = inside_ok and not outside and any(has_return_leg(n) for n in mode_phis)
     # in _step: a leg to the depot added under the freshly computed done flag
     in_step = False
     acc = ssl.cell("current_length")
@@ -712,7 +740,11 @@ def incremental(ctx: Ctx):
         for n in vg.walk(acc):
             if nf._fn(n) == "torch.where" and len(n.args) == 4 and any(x is done_new or nf.strip(x) is nf.strip(done_new) for x in vg.walk(n.args[1])):
                 in_step = True
-    okc = in_reward or in_step
+    okc = (in_reward and mode_ok) or in_step
+    if in_reward and not mode_ok:
+        ctx.ob("C03.d", "MDCPDPEnv:last-return-leg:closed-tours-only", False, rsl.where,
+               "the return leg of the last tour is not tied to problem_mode == 'close': in 'open' mode the way back to the depot is free (as for every earlier tour, see _step)",
+               construct="MDCPDPEnv._get_reward:last-return-leg:mode")
     ctx.ob("C03.d", "MDCPDPEnv:last-return-leg", okc, rsl.where,
            "the return of the last tour enters the cost " + ("in _get_reward from (current_node, current_depot)" if in_reward else "in _step when done is reached") if okc else
            "neither _get_reward nor _step adds the way back of the tour that is open when the episode ends: _get_reward reads td['current_length'], which stops at the last delivery "
